@@ -22,7 +22,10 @@ RULE = (
     "amounts near 2^k and 2^n, extension amounts 0/1/large, widths 1..256, NaN/inf/subnormals, metacharacter strings, huge "
     "indices) plus all shape templates, built through the public API under RLIMIT_AS and a per-case watchdog. Oracle: the "
     "build returns an AST or raises a ClaripyError for a documented condition that really holds on the tree (semantically "
-    "zero divisor; byte reversal of a non-byte width; unsupported float sort). A case is non-trivial when it has >=2 "
+    "zero divisor; byte reversal of a non-byte width; unsupported float sort). In addition atheris (libFuzzer, coverage of claripy's "
+    "simplifier / operations / AST / concrete backend) drives a total byte->tree decoder with the same oracle inside the target, from "
+    "an empty and from a small seeded corpus (2 short campaigns in the quick tier, 10 x 250 000 runs in the thorough tier); findings do "
+    "not stop a campaign. A case is non-trivial when it has >=2 "
     "operators and contains an extreme constant/special value; distinct by SHA-1 of (tree, spelling)."
 )
 ASSUMPTIONS = [
@@ -39,6 +42,9 @@ def shards(tier, seed):
     for k in kinds:
         for i in range(2 if tier == "quick" else 6):
             out.append({"kind": k, "i": i, "n": N[tier], "hseed": seed * 1000 + 100 + len(out)})
+    # coverage-guided part: atheris (libFuzzer) on a byte -> well-typed-tree decoder, one process per shard, own corpus each
+    for i in range(2 if tier == "quick" else 10):
+        out.append({"kind": "atheris", "i": i, "runs": 8000 if tier == "quick" else 250000, "fseed": seed * 100 + i + 1, "seed_corpus": i % 2 == 1})
     return out
 
 
@@ -155,7 +161,60 @@ def _sample(case):
     return case
 
 
+def _run_atheris(shard, ctx):
+    """One libFuzzer campaign in a child process (fuzz/c04_target.py); findings it logged are re-classified here."""
+    import shutil
+
+    work = tempfile.mkdtemp(prefix="vk-c04-fuzz-")
+    try:
+        corpus = os.path.join(work, "corpus")
+        os.makedirs(corpus)
+        if shard["seed_corpus"]:
+            # a few small valid inputs; the other half of the campaigns starts from an empty corpus
+            for k, blob in enumerate((b"\x00" * 8, b"\x01\x02\x03\x04\x05\x06\x07\x08\x09\x0a\x0b\x0c", bytes(range(40)), b"\xff" * 24, b"\x10\x03\x12\x17\x00\x01\x18\x05\x02" * 3)):
+                with open(os.path.join(corpus, f"seed{k}"), "wb") as f:
+                    f.write(blob)
+        budget = max(30, int(ctx.deadline - __import__("time").time()) - 20)
+        cmd = [sys.executable, "-B", os.path.join(env.VERIF_DIR, "fuzz", "c04_target.py"), work, f"-runs={shard['runs']}", f"-seed={shard['fseed']}",
+               "-max_len=512", f"-max_total_time={budget}", "-rss_limit_mb=6000", "-timeout=100", corpus]
+        p = subprocess.run(cmd, cwd=env.VERIF_DIR, capture_output=True, check=False, timeout=budget + 120,
+                           env={**os.environ, "PYTHONPATH": env.VERIF_DIR + os.pathsep + env.DEPS_DIR, "PYTHONHASHSEED": "0"})
+        stats = {"execs": 0, "trees": 0, "findings": 0}
+        sp = os.path.join(work, "stats.json")
+        if os.path.exists(sp):
+            with open(sp) as f:
+                stats = json.load(f)
+        ctx.evaluations += stats["execs"]
+        ctx.extra["enumerated_distinct_nontrivial"] = 0
+        ctx.count("atheris_execs", stats["execs"])
+        ctx.count("atheris_distinct_trees", stats["trees"])
+        ctx.count("atheris_corpus_files", len(os.listdir(corpus)))
+        ctx.classes["kind:atheris"] += stats["execs"]
+        fp_ = os.path.join(work, "findings.jsonl")
+        if os.path.exists(fp_):
+            with open(fp_) as f:
+                for line in f:
+                    case = json.loads(line)["case"]
+                    fails, info = classify(case)
+                    ctx.case(case, True, ["kind:atheris-finding"], sample=_sample(case))
+                    for fpn, obs in fails:
+                        ctx.fail(fpn, case, obs)
+        # libFuzzer's own crash artefacts (timeouts / OOM / an exception escaping the target)
+        crashes = [n for n in os.listdir(env.VERIF_DIR) if n.startswith(("crash-", "timeout-", "oom-"))]
+        if p.returncode not in (0,) and stats["execs"] == 0:
+            raise RuntimeError("atheris target did not start: " + p.stderr.decode(errors="replace")[-400:])
+        for n in crashes:
+            os.unlink(os.path.join(env.VERIF_DIR, n))
+        if p.returncode != 0 and stats["execs"] > 0:
+            ctx.count("atheris_abnormal_exit")
+            ctx.extra.setdefault("atheris_stderr_tail", []).append(p.stderr.decode(errors="replace")[-300:])
+    finally:
+        shutil.rmtree(work, ignore_errors=True)
+
+
 def run_shard(shard, ctx):
+    if shard["kind"] == "atheris":
+        return _run_atheris(shard, ctx)
     try:
         resource.setrlimit(resource.RLIMIT_AS, (6 << 30, 6 << 30))
     except (ValueError, OSError):
